@@ -1527,6 +1527,9 @@ def cells(tier, seed):
     out += module_prior_cells(tier)
     out += history_cells(tier)
     out += transform_cells(tier)
+    # two constraints of the same kind on one parameter (register_constraint(..., replace=False)) intersect to the common interval
+    for a, b in itertools.product([(0.1, 2.0), (0.5, 5.0), (1.0, 1.5)], repeat=2):
+        out.append({"what": "intersect", "a": list(a), "b": list(b)})
     return out
 
 
@@ -1538,7 +1541,30 @@ def run_cell(cell, seed):
         return run_history(cell, seed)
     if what == "prior-density":
         return run_prior_density(cell, seed)
+    if what == "intersect":
+        return run_intersect(cell, seed)
     return run_module_prior(cell, seed)
+
+
+def run_intersect(cell, seed):
+    fails = []
+    feats = {"what": "intersect"}
+    (alo, ahi), (blo, bhi) = cell["a"], cell["b"]
+    lo, hi = max(alo, blo), min(ahi, bhi)
+    try:
+        c = Interval(alo, ahi).intersect(Interval(blo, bhi))
+        got = (float(c.lower_bound), float(c.upper_bound))
+        if got != (lo, hi):
+            fails.append({"sub": "intersect", "symptom": f"Interval{tuple(cell['a'])}.intersect(Interval{tuple(cell['b'])}) has bounds {got}, want {(lo, hi)}",
+                          "detail": "", "features": feats})
+        k = gpytorch.kernels.RBFKernel(lengthscale_constraint=Interval(alo, ahi))
+        k.register_constraint("raw_lengthscale", Interval(blo, bhi), replace=False)
+        got = (float(k.raw_lengthscale_constraint.lower_bound), float(k.raw_lengthscale_constraint.upper_bound))
+        if got != (lo, hi):
+            fails.append({"sub": "intersect", "symptom": f"register_constraint(replace=False) left bounds {got}, want {(lo, hi)}", "detail": "", "features": feats})
+    except Exception as e:
+        fails.append({"sub": "intersect", "symptom": util.exc_str(e), "detail": "", "features": feats})
+    return {"fails": fails, "sig": "intersect", "features": feats, "ops": 2}
 
 
 def main(ctx):
